@@ -81,10 +81,12 @@ Inductive case :=
    [split] = net.SplitHostPort(RemoteAddr); [xff] = all X-Forwarded-For field values;
    e_ip holds net.ParseIP's answer for the zone-stripped text of the host and of every element;
    [sem] = net/netip meaning (zone dropped, unmapped) of the host and of every listed element;
-   [ref_admit] = the harness's own netip decision; observables: status, upstream hits *)
-| CHttp (e : env) (present : bool) (auth : str) (schemes : list (str * bool))
+   [ref_admit] = the harness's own netip decision; [redirect] = the route's redirect option
+   (0 = the route forwards; 301/302/307/308: the target comes out of the real Table.Lookup as a
+   per-request copy); observables: status, upstream hits, whether a Location header was set *)
+| CHttp (e : env) (present : bool) (redirect : N) (auth : str) (schemes : list (str * bool))
         (remote : str) (split : option str) (xff : list str)
-        (sem : list (str * option (bool * N))) (ref_admit : bool) (status hits : N)
+        (sem : list (str * option (bool * N))) (ref_admit : bool) (status hits : N) (has_location : bool)
 (* the real tcp.Proxy (0) / tcp.SNIProxy (1) / tcp.DynamicProxy (2) ServeTCP on a scripted
    connection: number of connections the upstream listener saw *)
 | CTcp (e : env) (present : bool) (proxy : N) (peer : tcp_peer) (ref_admit : bool) (dials : N).
@@ -104,19 +106,21 @@ Definition check_case (c : case) : N :=
       if negb sane then v_disagree else
       (* no known-finding region is left (F-C12-1 fixed by 1cbe751) *)
       verdict same spec None (negb (rules_empty mr) || negb mok)
-  | CHttp e present auth schemes remote split xff sem ref_admit status hits =>
+  | CHttp e present redirect auth schemes remote split xff sem ref_admit status hits has_location =>
       let '(mr, mok) := m_rules e in
       let pip := oracle (e_ip e) in
       let sh := fun s => if beq s remote then split else None in
       let ev := serve_http pip sh unit
-                  (if present then Some {| t_rules := mr; t_auth := auth |} else None)
+                  (if present then Some {| t_rules := mr; t_auth := auth; t_redirect := redirect |} else None)
                   (scheme_tab schemes) remote xff tt in
       let m_obs := match ev with
-                   | [ERespond s] => (s, 0)
-                   | [EUpstream] => (200, 1)
-                   | _ => (0, 99)
+                   | [ERespond s] => (s, 0, false)
+                   | [ERedirect c] => (c, 0, true)
+                   | [EUpstream] => (200, 1, false)
+                   | _ => (0, 99, false)
                    end in
-      let same := (fst m_obs =? status) && (snd m_obs =? hits) in
+      let same := (fst (fst m_obs) =? status) && (snd (fst m_obs) =? hits)
+                  && Bool.eqb (snd m_obs) has_location in
       (* every address string the request carries: the peer and every element of every field value *)
       let strs := match split with
                   | None => []
@@ -134,17 +138,24 @@ Definition check_case (c : case) : N :=
          "1.2.3.4%eth0", which the code reads as 1.2.3.4 and netip rejects) only the safe
          direction is demanded, so that a fail-closed reading does not alarm. *)
       let strict := mok && forallb (fun s => is_some (pipz s) && is_some (oracle sem s)) strs in
+      (* the answer of a request that passed both gates: the upstream's 200 after one round
+         trip, or for a redirect route the 3xx with a Location and no upstream contact *)
+      let passed := if redirect =? 0 then (hits =? 1) && (status =? 200)
+                    else (hits =? 0) && (status =? redirect) && has_location in
+      let refused := (hits =? 0) && negb has_location in
       let spec := if negb present then (hits =? 0) && (status =? 404) else
                   match split with
-                  | None => hits =? 0
+                  | None => (hits =? 0) &&
+                            (* no peer address: refused, or (redirect route) answered by fabio itself *)
+                            ((redirect =? 0) || negb (status =? redirect) || passed)
                   | Some host =>
                       (* a rule error denies every peer whose address the code can read (1cbe751) *)
-                      if negb mok && is_some (pipz host) then (hits =? 0) && (status =? 403) else
-                      if hits =? 0 then
-                        if negb admitted_ref then status =? 403
-                        else if negb auth_ref then (status =? 401) || (negb strict && (status =? 403))
-                        else negb strict && (status =? 403)
-                      else (hits =? 1) && (status =? 200) && admitted_ref && auth_ref
+                      if negb mok && is_some (pipz host) then refused && (status =? 403) else
+                      if passed then admitted_ref && auth_ref
+                      else refused &&
+                        (if negb admitted_ref then status =? 403
+                         else if negb auth_ref then (status =? 401) || (negb strict && (status =? 403))
+                         else negb strict && (status =? 403))
                   end in
       let sane := rule_queries_ok e && ref_matches e && Bool.eqb admitted_ref ref_admit
                   && forallb (fun s => covered (e_ip e) (strip_zone s)) strs && forallb (covered sem) strs
@@ -165,7 +176,7 @@ Definition check_case (c : case) : N :=
       verdict same spec region (present && (negb (rules_empty mr) || negb mok || negb (is_nil auth)))
   | CTcp e present proxy peer ref_admit dials =>
       let '(mr, mok) := m_rules e in
-      let ev := serve_tcp (if present then Some {| t_rules := mr; t_auth := [] |} else None) peer in
+      let ev := serve_tcp (if present then Some {| t_rules := mr; t_auth := []; t_redirect := 0 |} else None) peer in
       let same := count_upstream ev =? dials in
       let adm := match peer with
                  | TCPAddr (Some ip) => ref_admits (e_ref e) (canon ip)
